@@ -29,13 +29,22 @@ func (x *Int32) Load() int32 { rt.AtomicPoint(false, unsafe.Pointer(x)); return 
 func (x *Int32) Store(v int32) { rt.AtomicPoint(true, unsafe.Pointer(x)); atomic.StoreInt32(&x.v, v) }
 
 // Swap replaces Swap.
-func (x *Int32) Swap(v int32) int32 { rt.AtomicPoint(true, unsafe.Pointer(x)); return atomic.SwapInt32(&x.v, v) }
+func (x *Int32) Swap(v int32) int32 {
+	rt.AtomicPoint(true, unsafe.Pointer(x))
+	return atomic.SwapInt32(&x.v, v)
+}
 
 // Add replaces Add.
-func (x *Int32) Add(d int32) int32 { rt.AtomicPoint(true, unsafe.Pointer(x)); return atomic.AddInt32(&x.v, d) }
+func (x *Int32) Add(d int32) int32 {
+	rt.AtomicPoint(true, unsafe.Pointer(x))
+	return atomic.AddInt32(&x.v, d)
+}
 
 // Sub replaces Sub.
-func (x *Int32) Sub(d int32) int32 { rt.AtomicPoint(true, unsafe.Pointer(x)); return atomic.AddInt32(&x.v, -d) }
+func (x *Int32) Sub(d int32) int32 {
+	rt.AtomicPoint(true, unsafe.Pointer(x))
+	return atomic.AddInt32(&x.v, -d)
+}
 
 // Inc replaces Inc.
 func (x *Int32) Inc() int32 { return x.Add(1) }
@@ -68,13 +77,22 @@ func (x *Int64) Load() int64 { rt.AtomicPoint(false, unsafe.Pointer(x)); return 
 func (x *Int64) Store(v int64) { rt.AtomicPoint(true, unsafe.Pointer(x)); atomic.StoreInt64(&x.v, v) }
 
 // Swap replaces Swap.
-func (x *Int64) Swap(v int64) int64 { rt.AtomicPoint(true, unsafe.Pointer(x)); return atomic.SwapInt64(&x.v, v) }
+func (x *Int64) Swap(v int64) int64 {
+	rt.AtomicPoint(true, unsafe.Pointer(x))
+	return atomic.SwapInt64(&x.v, v)
+}
 
 // Add replaces Add.
-func (x *Int64) Add(d int64) int64 { rt.AtomicPoint(true, unsafe.Pointer(x)); return atomic.AddInt64(&x.v, d) }
+func (x *Int64) Add(d int64) int64 {
+	rt.AtomicPoint(true, unsafe.Pointer(x))
+	return atomic.AddInt64(&x.v, d)
+}
 
 // Sub replaces Sub.
-func (x *Int64) Sub(d int64) int64 { rt.AtomicPoint(true, unsafe.Pointer(x)); return atomic.AddInt64(&x.v, -d) }
+func (x *Int64) Sub(d int64) int64 {
+	rt.AtomicPoint(true, unsafe.Pointer(x))
+	return atomic.AddInt64(&x.v, -d)
+}
 
 // Inc replaces Inc.
 func (x *Int64) Inc() int64 { return x.Add(1) }
@@ -101,19 +119,34 @@ type Uint32 struct {
 func NewUint32(v uint32) *Uint32 { return &Uint32{v: v} }
 
 // Load replaces Load.
-func (x *Uint32) Load() uint32 { rt.AtomicPoint(false, unsafe.Pointer(x)); return atomic.LoadUint32(&x.v) }
+func (x *Uint32) Load() uint32 {
+	rt.AtomicPoint(false, unsafe.Pointer(x))
+	return atomic.LoadUint32(&x.v)
+}
 
 // Store replaces Store.
-func (x *Uint32) Store(v uint32) { rt.AtomicPoint(true, unsafe.Pointer(x)); atomic.StoreUint32(&x.v, v) }
+func (x *Uint32) Store(v uint32) {
+	rt.AtomicPoint(true, unsafe.Pointer(x))
+	atomic.StoreUint32(&x.v, v)
+}
 
 // Swap replaces Swap.
-func (x *Uint32) Swap(v uint32) uint32 { rt.AtomicPoint(true, unsafe.Pointer(x)); return atomic.SwapUint32(&x.v, v) }
+func (x *Uint32) Swap(v uint32) uint32 {
+	rt.AtomicPoint(true, unsafe.Pointer(x))
+	return atomic.SwapUint32(&x.v, v)
+}
 
 // Add replaces Add.
-func (x *Uint32) Add(d uint32) uint32 { rt.AtomicPoint(true, unsafe.Pointer(x)); return atomic.AddUint32(&x.v, d) }
+func (x *Uint32) Add(d uint32) uint32 {
+	rt.AtomicPoint(true, unsafe.Pointer(x))
+	return atomic.AddUint32(&x.v, d)
+}
 
 // Sub replaces Sub.
-func (x *Uint32) Sub(d uint32) uint32 { rt.AtomicPoint(true, unsafe.Pointer(x)); return atomic.AddUint32(&x.v, ^(d - 1)) }
+func (x *Uint32) Sub(d uint32) uint32 {
+	rt.AtomicPoint(true, unsafe.Pointer(x))
+	return atomic.AddUint32(&x.v, ^(d - 1))
+}
 
 // Inc replaces Inc.
 func (x *Uint32) Inc() uint32 { return x.Add(1) }
@@ -140,19 +173,34 @@ type Uint64 struct {
 func NewUint64(v uint64) *Uint64 { return &Uint64{v: v} }
 
 // Load replaces Load.
-func (x *Uint64) Load() uint64 { rt.AtomicPoint(false, unsafe.Pointer(x)); return atomic.LoadUint64(&x.v) }
+func (x *Uint64) Load() uint64 {
+	rt.AtomicPoint(false, unsafe.Pointer(x))
+	return atomic.LoadUint64(&x.v)
+}
 
 // Store replaces Store.
-func (x *Uint64) Store(v uint64) { rt.AtomicPoint(true, unsafe.Pointer(x)); atomic.StoreUint64(&x.v, v) }
+func (x *Uint64) Store(v uint64) {
+	rt.AtomicPoint(true, unsafe.Pointer(x))
+	atomic.StoreUint64(&x.v, v)
+}
 
 // Swap replaces Swap.
-func (x *Uint64) Swap(v uint64) uint64 { rt.AtomicPoint(true, unsafe.Pointer(x)); return atomic.SwapUint64(&x.v, v) }
+func (x *Uint64) Swap(v uint64) uint64 {
+	rt.AtomicPoint(true, unsafe.Pointer(x))
+	return atomic.SwapUint64(&x.v, v)
+}
 
 // Add replaces Add.
-func (x *Uint64) Add(d uint64) uint64 { rt.AtomicPoint(true, unsafe.Pointer(x)); return atomic.AddUint64(&x.v, d) }
+func (x *Uint64) Add(d uint64) uint64 {
+	rt.AtomicPoint(true, unsafe.Pointer(x))
+	return atomic.AddUint64(&x.v, d)
+}
 
 // Sub replaces Sub.
-func (x *Uint64) Sub(d uint64) uint64 { rt.AtomicPoint(true, unsafe.Pointer(x)); return atomic.AddUint64(&x.v, ^(d - 1)) }
+func (x *Uint64) Sub(d uint64) uint64 {
+	rt.AtomicPoint(true, unsafe.Pointer(x))
+	return atomic.AddUint64(&x.v, ^(d - 1))
+}
 
 // Inc replaces Inc.
 func (x *Uint64) Inc() uint64 { return x.Add(1) }
@@ -186,10 +234,16 @@ func b2i(b bool) uint32 {
 func NewBool(v bool) *Bool { return &Bool{v: b2i(v)} }
 
 // Load replaces Load.
-func (x *Bool) Load() bool { rt.AtomicPoint(false, unsafe.Pointer(x)); return atomic.LoadUint32(&x.v) == 1 }
+func (x *Bool) Load() bool {
+	rt.AtomicPoint(false, unsafe.Pointer(x))
+	return atomic.LoadUint32(&x.v) == 1
+}
 
 // Store replaces Store.
-func (x *Bool) Store(v bool) { rt.AtomicPoint(true, unsafe.Pointer(x)); atomic.StoreUint32(&x.v, b2i(v)) }
+func (x *Bool) Store(v bool) {
+	rt.AtomicPoint(true, unsafe.Pointer(x))
+	atomic.StoreUint32(&x.v, b2i(v))
+}
 
 // Swap replaces Swap.
 func (x *Bool) Swap(v bool) bool {
